@@ -15,6 +15,7 @@ import HvTick.Model.Wake
 import HvTick.Model.Tick
 import HvTick.Model.Ticks
 import HvTick.Model.Loop
+import HvTick.Model.Refs
 open HvTick
 
 structure DSt where
@@ -25,8 +26,10 @@ structure DSt where
   loop : Option Loop.RSt := none
   q1 : List Int := []
   q2 : List Int := []
+  /-- C25: reference program -/
+  refs : Option Refs.Prog := none
 
-def DSt.fresh : DSt := ⟨Wake.init, none, none, [], []⟩
+def DSt.fresh : DSt := ⟨Wake.init, none, none, [], [], none⟩
 
 /-! ### C24 -/
 
@@ -99,6 +102,39 @@ def arith (ws : List String) : Option String :=
   | ["dneg", a] => do let a ← parseI64 a; pure (showOptI (Ticks.durNeg a))
   | _ => none
 
+/-! ### C25 -/
+
+def parseClosure (w : String) : Option Refs.Closure :=
+  match w.splitOn ":" with
+  | [g, op] =>
+    let grp : Option (Option Nat) := if g == "-" then some none else g.toNat?.map some
+    let o : Option Refs.Op := match op.toList with
+      | 'a' :: r => (String.ofList r).toInt?.map .add
+      | 'm' :: r => (String.ofList r).toInt?.map .mul
+      | 'p' :: r => (String.ofList r).toInt?.map .push
+      | 'f' :: r => (String.ofList r).toInt?.map .retain
+      | 'r' :: r => (String.ofList r).toNat?.map .read
+      | _ => none
+    match grp, o with
+    | some g, some o => some ⟨g, o⟩
+    | _, _ => none
+  | _ => none
+
+def parseRefs (tags : List String) : Option Refs.Prog :=
+  match tags.filterMap (fun w => if w.startsWith "refs=" then some (w.drop 5).toString else none) with
+  | d :: _ =>
+    match d.splitOn ";" with
+    | hd :: cl =>
+      match cl.mapM parseClosure with
+      | some cs =>
+        if hd == "V" then some ⟨true, 0, cs⟩
+        else match hd.toList with
+          | 'S' :: r => (String.ofList r).toInt?.map fun i => ⟨false, i, cs⟩
+          | _ => none
+      | none => none
+    | [] => none
+  | [] => none
+
 /-! ### C26 -/
 
 /-- tokens -> nodes; returns (nodes, remaining tokens, next handoff position, next loop id) -/
@@ -159,6 +195,20 @@ def c26Op (st : DSt) (ws : List String) : Option (DSt × String) :=
     | none => some (st, "model-budget-exhausted")
   | _, _ => none
 
+def c25Op (st : DSt) (ws : List String) : Option (DSt × String) :=
+  match ws, st.refs with
+  | ["send", v], some _ => (parseVals v).map fun vs => ({ st with q1 := st.q1 ++ vs }, "ok")
+  | ["tick", n], some p =>
+    match n.toNat? with
+    | some n =>
+      if n ≤ 8 then
+        let o := Refs.tick p st.q1 n
+        some ({ st with q1 := [], wake := { st.wake with ticks := st.wake.ticks + 1 } },
+          s!"t={st.wake.ticks + 1} out={showTaps (o.map fun r => (r.1, [r.2]))}")
+      else none
+    | none => none
+  | _, _ => none
+
 def c24Op (st : DSt) (ws : List String) : Option (DSt × String) :=
   match ws, st.tick with
   | ["send", v], some s => (parseVals v).map fun vs => ({ st with tick := some (Tick.send s vs) }, "ok")
@@ -192,6 +242,9 @@ def step (st : DSt) (line : String) : DSt × String :=
   let l := line.trimAscii.toString
   match l.splitOn " " with
   | "#case" :: tags =>
+    match parseRefs tags with
+    | some p => ({ DSt.fresh with refs := some p }, l)
+    | none =>
     match parseLoopProg tags with
     | some p => ({ DSt.fresh with loop := some ⟨p, [], 0⟩ }, l)
     | none => ({ DSt.fresh with tick := (parseProg tags).map Tick.RSt.init }, l)
@@ -206,7 +259,11 @@ def step (st : DSt) (line : String) : DSt × String :=
     let s := st.wake
     (st, s!"end pc={s.pc.name} t={s.ticks} ct={s.ticks}")
   | ws =>
-    if st.loop.isSome then
+    if st.refs.isSome then
+      match c25Op st ws with
+      | some r => r
+      | none => (st, "bad-op")
+    else if st.loop.isSome then
       match c26Op st ws with
       | some r => r
       | none => (st, "bad-op")
